@@ -178,6 +178,13 @@ def family_sel(tier='quick'):
     out.append(_sel('activated-by-two-nested-choices', ['S1', 'S3', 'P0', 'P1', 'B', 'Q0', 'Q1', 'M', 'R0', 'R1', 'T0', 'T1'],
                     [('P1', 'B'), ('P0', 'M'), ('Q0', 'M')], ['S1', 'S3'],
                     [('C1', 'S1', ['P0', 'P1']), ('C2', 'B', ['Q0', 'Q1']), ('C5', 'M', ['R0', 'R1']), ('C3', 'S3', ['T0', 'T1'])]))
+    # a derivation cycle (R <-> P) below an option, with a cross edge from the cycle to a node that carries a nested
+    # choice; the other option enters the cycle: whatever C1 takes, Q is derived and C2 has to become active
+    for with_w in (True, False):
+        e = [('X', 'W'), ('W', 'Q'), ('W', 'R')] if with_w else [('X', 'Q'), ('X', 'R')]
+        out.append(_sel(f'cycle-cross-edge-to-nested-choice-{int(with_w)}', ['S', 'X', 'Y', 'Q', 'R', 'P', 'U', 'V'] + (['W'] if with_w else []),
+                        e + [('R', 'P'), ('P', 'R'), ('R', 'Q'), ('Y', 'P')], ['S'],
+                        [('C1', 'S', ['X', 'Y']), ('C2', 'Q', ['U', 'V'])]))
     # no choices at all
     out.append(_sel('no-choice', ['A', 'B', 'C'], [('A', 'B'), ('B', 'C')], ['A'], []))
     # choice whose option activates two further choices
@@ -476,6 +483,10 @@ def family_dvmet(tier='quick'):
     out.append(Desc(base_nodes, base_edges, ['A'], choices=[('mode', 'A', ['P0', 'P1']), ('Mode', 'B', ['Q0', 'Q1'])] if False else ch,
                     dvs=[('T', 'B', (0.0, 1.0), None), ('t', 'B', (10.0, 30.0), None), ('Mat', 'A', None, ['x', 'y', 'z'])],
                     label='dv-names-differ-in-case'))
+    # discrete design-variable nodes with a single option (permanent and conditional) next to ordinary ones
+    out.append(Desc(base_nodes, base_edges, ['A'], choices=ch,
+                    dvs=[('d1', 'B', None, ['only']), ('d2', 'P0', None, ['only']), ('d3', 'A', None, ['x', 'y']), ('d4', 'P1', (0.0, 1.0), None)],
+                    label='dv-single-option'))
     # three linked discrete design-variable nodes with a narrower one in the middle of the constraint order
     out.append(Desc(base_nodes, base_edges, ['A'], choices=ch, constraints=[('LINKED', ['dl1', 'dl2', 'dl3'])],
                     dvs=[('dl1', 'B', None, ['a', 'b', 'c', 'd', 'e']), ('dl2', 'A', None, ['u', 'v']),
@@ -549,6 +560,15 @@ def family_conn(tier='quick'):
         out.append(Desc(['A', 'P0', 'P1'], [], ['A'], choices=[('C1', 'A', ['P0', 'P1'])],
                         conns=[('sA', opt, False, 'P0'), ('sB', opt, False, 'A'), ('t1', opt, False, 'A'), ('t2', opt, False, 'A')],
                         conn_choices=[('CC', ['sA', 'sB'], ['t1', 't2'], excl)], label=f'conn-excl-cond-{trial}'))
+    # exclusion edge behind a conditional *target* that sorts before the excluded target (and behind a conditional source)
+    one = ('list', (1,))
+    for trial, excl in enumerate(([('s0', 't1')], [('s0', 't2')], [('s1', 't1'), ('s0', 't2')])):
+        out.append(Desc(['A', 'P0', 'P1'], [], ['A'], choices=[('C1', 'A', ['P0', 'P1'])],
+                        conns=[('s0', one, False, 'A'), ('s1', one, False, 'A'), ('t0', opt, False, 'P0'), ('t1', opt, False, 'A'), ('t2', opt, False, 'A')],
+                        conn_choices=[('CC', ['s0', 's1'], ['t0', 't1', 't2'], excl)], label=f'conn-excl-cond-target-{trial}'))
+    out.append(Desc(['A', 'P0', 'P1'], [], ['A'], choices=[('C1', 'A', ['P0', 'P1'])],
+                    conns=[('s0', opt, False, 'P0'), ('s1', one, False, 'A'), ('s2', opt, False, 'A'), ('t0', opt, False, 'P1'), ('t1', ('min', 0), False, 'A'), ('t2', opt, False, 'A')],
+                    conn_choices=[('CC', ['s0', 's1', 's2'], ['t0', 't1', 't2'], [('s1', 't1'), ('s2', 't2')])], label='conn-excl-cond-both-sides'))
     # grouping node over a permanent and a conditional member (the documented example shape)
     for trial in range(3 if tier == 'quick' else 8):
         dm = [(('range', 1, 2), False), (('list', (1,)), False), (('range', 0, 1), False)][trial % 3]
